@@ -666,6 +666,15 @@ def gt_new(p, x, a):
     return p.new("FPX", G.enc_gt(x, a))
 
 
+def gt_out(p, x):
+    """output object: stale non-identity content, so that a routine that returns without writing (exponent 0, identity
+    operands) cannot pass because the object already held 1 (lesson of seed C04-6)"""
+    F = x.F
+    k = getattr(x, "kemb", 12)
+    body = b"".join(F.to_raw_int(j + 2).to_bytes(F.nbytes, "little") for j in range(k))
+    return p.new("FPX", bytes([k]) + struct.pack("<I", len(body)) + body)
+
+
 def strat_valid_gt(env, cfg):
     x = my_ctx(env, cfg)
     kinds = gt_kinds(x)
@@ -701,7 +710,7 @@ def run_valid_gt(env, cfg, case):
             def build(p):
                 s1 = p.new("EP", ecctx.enc_point(x.base, P))
                 s2 = p.new("EP2", G.enc_g2(x, Q))
-                sa = gt_new(p, x, F12.one)
+                sa = gt_out(p, x)
                 p.call("pc_map", sa, s1, s2)
                 p.call(fn, sa)
                 p.dump(sa)
@@ -1089,7 +1098,7 @@ def run_exp(env, cfg, case):
     what = "%s[cid=%d]" % (cop, x.cid)
 
     def build(p):
-        so = gt_new(p, x, F12.one)
+        so = gt_out(p, x)
         ins = []
         if op in ("gt_exp", "gt_exp_sec", "fp12_exp_cyc"):
             sa, sk = gt_new(p, x, a), p.bn(ks[0])
@@ -1190,7 +1199,7 @@ def run_ops(env, cfg, case):
 
     def build(pg):
         sa = gt_new(pg, x, a)
-        so = sa if alias == 1 else gt_new(pg, x, F12.one)
+        so = sa if alias == 1 else gt_out(pg, x)
         ins = [sa] if so != sa else []
         if op in ("gt_inv", "gt_sqr"):
             pg.call(op, so, sa)
